@@ -58,6 +58,13 @@ def _short(a):
 
 def make_sketch(cfg, shared_memory=False):
     k = cfg["kind"]
+    if cfg.get("factory") and k in ("linear", "log16", "log8"):
+        # the documented way to build a count-min sketch: the CountMin() convenience function
+        if k == "linear":
+            return CountMin("linear", cfg["width"], cfg["depth"], shared_memory=shared_memory)
+        if "num_reserved" in cfg:
+            return CountMin(k, cfg["width"], cfg["depth"], cfg.get("max_count", CEIL), cfg["num_reserved"], shared_memory)
+        return CountMin(k, cfg["width"], cfg["depth"], cfg.get("max_count", CEIL), shared_memory=shared_memory)
     if k == "linear":
         return CountMinLinear(cfg["width"], cfg["depth"], shared_memory=shared_memory)
     if k in ("log16", "log8"):
